@@ -111,7 +111,13 @@ def gen(rng, tier, quarantine=()):
         good = gen_sel(rng, fns)
         bad = {"levels": [{"fn": rng.choice(fns), "caps": [], "sibs": []}],
                "focus": {"var": "nosuchvar", "as": "nosuchvar"}}
-        ops.append({"op": "mk", "id": "bad", "sels": [good, bad], "inv": "C05.exactly_once",
+        if "no-uninstrumentable-in-chain" not in quarantine and rng.random() < 0.4:
+            # refused for another reason: the chain runs through something that is not a Python
+            # function (the functions named before it have been tooled by then)
+            bad = {"levels": [{"fn": rng.choice(fns), "caps": [], "sibs": []}, {"fn": "NOTFN", "caps": [], "sibs": []}],
+                   "focus": {"var": "#value", "as": "v"}}
+        sels_bad = [good, bad] if rng.random() < 0.7 else [bad]
+        ops.append({"op": "mk", "id": "bad", "sels": sels_bad, "inv": "C05.exactly_once",
                     "kind": "probe", "expect_refusal": True, "raw": good.get("mode") == "total"})
         kinds["bad"] = "refused"
     nsteps = rng.randint(4, 12) if tier == "quick" else rng.randint(6, 28)
